@@ -89,13 +89,13 @@ func (e *Encoder) writeValue(val reflect.Value, tagType byte) error {
 		}
 		return err
 	case TagShort:
-		return writeInt16(e.w, int16(val.Int()))
+		return writeInt16(e.w, int16(intValue(val)))
 	case TagInt:
-		return writeInt32(e.w, int32(val.Int()))
+		return writeInt32(e.w, int32(intValue(val)))
 	case TagFloat:
 		return writeInt32(e.w, int32(math.Float32bits(float32(val.Float()))))
 	case TagLong:
-		return writeInt64(e.w, val.Int())
+		return writeInt64(e.w, intValue(val))
 	case TagDouble:
 		return writeInt64(e.w, int64(math.Float64bits(val.Float())))
 	case TagByteArray, TagIntArray, TagLongArray:
@@ -265,6 +265,16 @@ func (e *Encoder) writeValue(val reflect.Value, tagType byte) error {
 		return err
 	}
 	return nil
+}
+
+// intValue returns the integer held by a value of a signed or unsigned integer kind.
+func intValue(val reflect.Value) int64 {
+	switch val.Kind() {
+	case reflect.Uint, reflect.Uint8, reflect.Uint16, reflect.Uint32, reflect.Uint64:
+		return int64(val.Uint())
+	default:
+		return val.Int()
+	}
 }
 
 func getTagType(v reflect.Value) (byte, reflect.Value) {
